@@ -258,9 +258,9 @@ Print Assumptions C08_exec_total.
    (C08_refines_tilde_partial), r (C08_refines_replace_partial), p P of one-line character-wise text and of
    line-wise text (C08_refines_put_chars_partial, C08_refines_put_lines_partial), i a with plain typed text
    (C08_refines_insert_plain_partial), Y (C08_refines_Y_partial), s C with plain typed text
-   (C08_refines_s_C_plain_partial), S (C08_refines_S_plain_partial), o O (C08_refines_open_plain_partial), >> << (C08_refines_shift_partial).  The references are the small functions ref_span, ref_line_delete,
+   (C08_refines_s_C_plain_partial), S (C08_refines_S_plain_partial), o O (C08_refines_open_plain_partial), A (C08_refines_A_plain_partial), >> << (C08_refines_shift_partial).  The references are the small functions ref_span, ref_line_delete,
    ref_tilde, ref_replace, ref_put_off, ref_put_row, ref_ins_off of ViDefs.v on the BODY of the cursor line.
-   MISSING: J and d c y g~ gu gU with arbitrary motions (< > with a motion other than the doubled key), I A, inserts containing editing keys, newlines or only
+   MISSING: J and d c y g~ gu gU with arbitrary motions (< > with a motion other than the doubled key), I, inserts containing editing keys, newlines or only
    blanks (autoindent), puts of character-wise text containing a newline, and the composition over whole
    programs; the sticky column and the window top are not part of the statements.  Those commands are mirrored
    only and tied to the independent reference Ref8 and to the code by the correspondence run. *)
@@ -406,6 +406,17 @@ Theorem C08_refines_open_plain_partial : forall rows e (below : bool) typed e1 l
   s_regs e1 = s_regs e /\ v_row (s_vs e1) = r' /\ v_off (s_vs e1) = slen ind + slen typed - 1.
 Proof. exact refines_open_plain. Qed.
 Print Assumptions C08_refines_open_plain_partial.
+(* A typing plain text that contains a non-blank: the text is appended to the body of the cursor line wherever the
+   cursor was; the cursor lands on its last character *)
+Theorem C08_refines_A_plain_partial : forall rows e typed e1 body,
+  let b := s_buf e in let s := s_vs e in
+  buf_wf b -> cursor_ok b (v_row s) (v_off s) -> getl b (v_row s) = Some (body ++ [nlc]) ->
+  forallb plain_key typed = true -> existsb (fun c => negb (is_blankc c)) typed = true ->
+  exec1 rows (CIns IA typed) e = Some e1 ->
+  s_buf e1 = set_row b (v_row s) [body ++ typed ++ [nlc]] 1 /\
+  s_regs e1 = s_regs e /\ v_row (s_vs e1) = v_row s /\ v_off (s_vs e1) = slen body + slen typed - 1.
+Proof. exact refines_A_plain. Qed.
+Print Assumptions C08_refines_A_plain_partial.
 Local Open Scope N_scope.
 
 Example C08_nonvacuous :
